@@ -118,6 +118,34 @@ func runC05(c *Ctx) {
 				c.Case("sm4.x2", cl, false, "sm4.x2 "+keyHex+" "+in2+" "+dir)
 				c.Check3("sm4.x2", cl, "sm4.x2 "+keyHex+" "+in2+" "+dir, "sm4.spec "+keyHex+" "+in2+" "+dir, fmt.Sprintf("ok %x", dst2))
 			}
+			// arm64 NEON kernels: cannot be executed here; the REGENERATED arm64 listing runs under the value semantics
+			// of SMGo/Model/ISAValArm64.lean (an unvalidated transcription of the Arm ARM) against the specification
+			if it%10 == 0 {
+				for _, n := range []int{1, 2, 4, 8, 16} {
+					for _, alias := range []string{"disjoint", "inplace"} {
+						inHex := fmt.Sprintf("%x", blocks[:16*n])
+						sreq := "sm4.spec " + keyHex + " " + inHex + " " + dir
+						areq := fmt.Sprintf("asm64.kernel %d %s %s", n, wordsHex(rk[:]), inHex)
+						if alias == "inplace" {
+							areq += " inplace"
+						}
+						cl := fmt.Sprintf("arm64-listing/X%d/%s/%s/%s", n, dir, alias, kp.name)
+						c.Case("sm4.kernel.arm64", cl, false, areq)
+						model, spec := c.drv.Ask(areq), c.drv.Ask(sreq)
+						if model != spec {
+							c.Disagree(Disagreement{Kind: "model!=spec", Class: cl, Request: areq, SpecReq: sreq, Model: model, Spec: spec, Stream: "sm4.kernel.arm64"})
+						}
+					}
+				}
+				if dir == "enc" {
+					areq, sreq := "asm64.expandkey "+keyHex, "sm4.expand.spec "+keyHex
+					c.Case("sm4.kernel.arm64", "arm64-listing/expandKeyAsm/"+kp.name, false, areq)
+					model, spec := c.drv.Ask(areq), c.drv.Ask(sreq)
+					if model != spec {
+						c.Disagree(Disagreement{Kind: "model!=spec", Class: "arm64-listing/expandKeyAsm/" + kp.name, Request: areq, SpecReq: sreq, Model: model, Spec: spec, Stream: "sm4.kernel.arm64"})
+					}
+				}
+			}
 			if asmOK {
 				for _, k := range sm4Kernels() {
 					for _, alias := range []string{"disjoint", "inplace"} {
@@ -172,6 +200,17 @@ func runC05(c *Ctx) {
 					cl2 := fmt.Sprintf("api/accel=%v/reused-key-buffer", accel)
 					c.Case("sm4.api", cl2, false, "sm4.expand "+keyHex)
 					c.Check3("sm4.api", cl2, "sm4.expand "+keyHex, "sm4.expand.spec "+keyHex, "ok "+wordsHex(e3[:])+" "+wordsHex(d3[:]))
+				}
+				// ... and CONSECUTIVE constructions from the buffer modified in place, nothing in between
+				for j := 0; j < 3; j++ {
+					c05ReuseBuf[ri][(it+5*j)%len(key)] ^= byte(0x5a + j)
+					kh := fmt.Sprintf("%x", c05ReuseBuf[ri])
+					if blk3, err3 := sm4.NewCipher(c05ReuseBuf[ri]); err3 == nil {
+						e4, d4, _ := sm4.VerifRoundKeys(blk3)
+						cl3 := fmt.Sprintf("api/accel=%v/key-buffer-modified-in-place/%d", accel, j)
+						c.Case("sm4.api", cl3, false, "sm4.expand "+kh)
+						c.CheckSpec("sm4.api", cl3, "sm4.expand "+kh, "sm4.expand.spec "+kh, "ok "+wordsHex(e4[:])+" "+wordsHex(d4[:]))
+					}
 				}
 			}
 			sm4.VerifSetCandoAsm(asmOK)
